@@ -257,6 +257,8 @@ int spki_table_src_remove(struct spki_table *spki_table, const struct rtr_socket
 	while (current_node) {
 		entry = current_node->data;
 		if (entry->socket == socket) {
+			struct spki_record record;
+
 			current_node = current_node->next;
 			if (!tommy_list_remove_existing(&spki_table->list, &entry->list_node)) {
 				pthread_rwlock_unlock(&spki_table->lock);
@@ -266,7 +268,9 @@ int spki_table_src_remove(struct spki_table *spki_table, const struct rtr_socket
 				pthread_rwlock_unlock(&spki_table->lock);
 				return SPKI_ERROR;
 			}
+			key_entry_to_spki_record(entry, &record);
 			lrtr_free(entry);
+			spki_table_notify_clients(spki_table, &record, false);
 		} else {
 			current_node = current_node->next;
 		}
